@@ -140,7 +140,7 @@ func runC08(c *Ctx) {
 	c.Rule("C08.O9", "E7", "both CR exits of the header-value states record Transfer-Encoding / Trailer / Content-Length into the framing header set before OnHeader: a framing header with an empty value is still seen by the framing decision", 2)
 	c.Rule("C08.O10", "E9", "the chunk-size line is hex digits, optional blanks, then the end of the line or ';' and an extension: every path of the stateBodyChunkSize case, evaluated for all 256 bytes before and after the size is complete, refuses any other byte and accepts these", 1)
 	c08ChunkSizeLine(c)
-	c.Rule("C08.O11", "E4", "Content-Length is digits only (a sign is excluded before ParseInt) and every repeated value is compared with the first", 2)
+	c.Rule("C08.O11", "E4", "Content-Length is digits only (a sign is excluded before ParseInt) and every repeated value is compared with the first; the message has no length only when the field is absent (an empty value is refused)", 3)
 	c08ContentLengthStrict(c)
 	c.Rule("C08.O12", "E4", "an error is final: Parse's deferred closure records a non-nil result in a Parser field and the entry of Parse returns it before anything is parsed, joined or reported", 1)
 	c08ErrorsAreFinal(c)
